@@ -18,11 +18,12 @@ from detsim import mirror
 from detsim.asgi_sim import Conn, HttpMonitor, body_events, http_scope
 from detsim.simloop import Env, SimBudgetExceeded, SimLoop
 from detsim.threadsim import ThreadSim
+from detsim.core import reset_falcon_caches
 from detsim.wsgi_sim import WsgiExchange, make_environ
 
 PROPERTY = 'C19'
 LEVEL = 'exploration'
-RUNS = {'quick': 30000, 'thorough': 1200000}
+RUNS = {'quick': 20000, 'thorough': 1000000}
 BATCH = 200
 RULE = ('one run = one generated app (3-8 routes with literal/field/int/uuid/path/multi-field '
         'segments, 0-2 context-stamping middleware, echoing responders, error routes) x 2-3 '
@@ -93,6 +94,7 @@ def gen_plan(ch):
         if method == 'POST':
             body = json.dumps({'req': k, 'pad': 'x' * ch.draw(20, 'pad')}).encode()
         reqs.append({'route': r, 'path': path, 'method': method, 'tag': 'tag%d' % k,
+                     'accept': ACCEPTS[ch.weighted([4, 2, 2, 1, 1, 1], 'accept')],
                      'query': 'q=%d&who=r%d' % (k * 7, k), 'body': body.decode() if body else None})
     return {'routes': routes, 'n_mw': n_mw, 'reqs': reqs,
             'independent_mw': bool(ch.draw(2, 'independent_mw'))}
@@ -101,8 +103,21 @@ def gen_plan(ch):
 # ---------------------------------------------------------------------------
 # generated app (pure function of the plan); `pause` is None for WSGI
 # ---------------------------------------------------------------------------
+ACCEPTS = [
+    'application/json',
+    'application/json;profile="urn:example:v2";q=0.1, text/html;q=0.5',
+    'text/html;q=0.2, application/json;profile="urn:example:v2";q=0.1',
+    'text/html;level="1";q=0.3, application/json',
+    'application/xml;q=0.9, text/html;level="1";q=0.3, application/json;q=0.2',
+    '*/*;q=0.1, application/json;profile="urn:example:v2";q=0.1',
+]
+
+
 def _observe(req, params, body):
     return {
+        'prefers': req.client_prefers(['application/json', 'text/html', 'application/xml']),
+        'prefers2': req.client_prefers(['text/html', 'application/json']),
+        'accepts_html': req.client_accepts('text/html'),
         'path': req.path, 'method': req.method,
         'params': {k: str(v) for k, v in sorted(params.items())},
         'q': req.get_param('q'), 'who': req.get_param('who'),
@@ -219,7 +234,7 @@ def norm_headers(pairs):
 def wsgi_request(ctx, app, r):
     body = r['body'].encode() if r['body'] is not None else b''
     env = make_environ(method=r['method'], path=r['path'], query=r['query'],
-                       headers=[('X-Tag', r['tag']), ('Accept', 'application/json')],
+                       headers=[('X-Tag', r['tag']), ('Accept', r.get('accept', 'application/json'))],
                        body_input=io.BytesIO(body), content_length=len(body) if r['body'] is not None else None,
                        content_type='application/json' if r['body'] is not None else None)
     ex = WsgiExchange(ctx)
@@ -252,26 +267,54 @@ def run_threads(ctx, plan):
             compiled_mod.Lock = _REAL_LOCK
         return app
 
-    # solo baselines, each on a fresh identical app (also measures the event count)
+    # solo baselines, each on a fresh identical app and fresh process-wide caches;
+    # they also record where each request's thread goes (for choosing pre-emptions)
     base = []
-    total_events = 0
+    solo_locs = []
     for r in reqs:
         rec = {}
-        sim = ThreadSim(ch, prefixes)
+        reset_falcon_caches()
+        sim = ThreadSim(ch, prefixes, record=True)
         app = fresh(sim, rec)
         res, errs = sim.run([lambda r=r, app=app: wsgi_request(ctx, app, r)])
         if errs[0] is not None:
             ctx.violate('conc.threads.exception', 'solo request failed: %r' % (errs[0],), phase='solo')
             return
-        total_events += sim.events
+        solo_locs.append(sim.locs)
         base.append((res[0], rec.get(r['tag'])))
 
+    # location-based pre-emption triggers: "thread t, k-th time at file:line",
+    # drawn from t's solo trace with weights favouring lock boundaries and the router
     d = ch.weighted([1, 3, 3, 2, 2], 'n_preempt')
-    pts = sorted(set(1 + ch.draw(max(1, total_events), 'preempt_at') for _ in range(d)))
+    triggers = {}
+    chosen = []
+    for _ in range(d):
+        t = ch.draw(len(reqs), 'preempt_thread')
+        locs = solo_locs[t]
+        if not locs:
+            continue
+        zone = ch.weighted([3, 4, 3], 'preempt_zone')     # 0 lock boundary, 1 router, 2 anywhere
+        if zone == 0:
+            cand = [i for i, (f, _l) in enumerate(locs) if f == '<lock>']
+        elif zone == 1:
+            cand = [i for i, (f, _l) in enumerate(locs) if f == '<string>' or f.endswith('routing/compiled.py')]
+        else:
+            cand = None
+        if cand:
+            idx = cand[ch.draw(len(cand), 'preempt_at')]
+        else:
+            idx = ch.draw(len(locs), 'preempt_at')
+        f, line = locs[idx]
+        occ = 1 + sum(1 for x in locs[:idx] if x == (f, line))
+        triggers.setdefault((t, f, line), set()).add(occ)
+        chosen.append((t, f.rsplit('/', 1)[-1], line, occ))
+    total_events = sum(len(x) for x in solo_locs)
     rec = {}
-    sim = ThreadSim(ch, prefixes, switch_points=pts, max_events=20000 + total_events * 4)
+    reset_falcon_caches()
+    sim = ThreadSim(ch, prefixes, triggers=triggers, max_events=20000 + total_events * 4)
     app = fresh(sim, rec)
     res, errs = sim.run([lambda r=r: wsgi_request(ctx, app, r) for r in reqs])
+    pts = chosen
     ctx.steps = sim.events
     ctx.sched_key = 'T%d:%s' % (variant, sim.trace)
     if variant == 0:
@@ -374,7 +417,7 @@ def asgi_exchange(ctx, plan, reqs, concurrent):
     app = build_app(plan, True, record, pause)
     conns = []
     for r in reqs:
-        hdrs = [('X-Tag', r['tag']), ('Accept', 'application/json'), ('Host', 'sim')]
+        hdrs = [('X-Tag', r['tag']), ('Accept', r.get('accept', 'application/json')), ('Host', 'sim')]
         body = r['body'].encode() if r['body'] is not None else None
         if body is not None:
             hdrs += [('Content-Type', 'application/json'), ('Content-Length', str(len(body)))]
@@ -428,11 +471,13 @@ def run_tasks(ctx, plan):
     reqs = plan['reqs']
     base = []
     for r in reqs:
+        reset_falcon_caches()
         out, rec, fin, _s, _g = asgi_exchange(ctx, plan, [r], False)
         if not fin or out[0][0] == 'EXC':
             ctx.violate('conc.tasks.exception', 'solo request failed: %r' % (out[0],), phase='solo')
             return
         base.append((out[0], rec.get(r['tag'])))
+    reset_falcon_caches()
     out, rec, fin, steps, sig = asgi_exchange(ctx, plan, reqs, True)
     ctx.steps = steps
     ctx.sched_key = 'A:' + sig
